@@ -204,11 +204,19 @@ impl Vtx {
         let author = strings.pop().unwrap();
         let title = strings.pop().unwrap();
 
-        let mut transposed_frame_data = vec![0u8; decompressed_frames_size as usize];
+        // Decode in chunks: the buffer grows only as far as the decoder really delivers
+        // data, so that a bogus size in the header can't request gigabytes of memory
+        const DECODE_CHUNK_SIZE: usize = 64 * 1024;
+        let mut transposed_frame_data = Vec::new();
         let mut decoder = Lh5Decoder::new(reader);
-        decoder
-            .fill_buffer(&mut transposed_frame_data)
-            .map_err(|_| VtxError::DecompressFailure)?;
+        while transposed_frame_data.len() < decompressed_frames_size as usize {
+            let decoded = transposed_frame_data.len();
+            let chunk = DECODE_CHUNK_SIZE.min(decompressed_frames_size as usize - decoded);
+            transposed_frame_data.resize(decoded + chunk, 0u8);
+            decoder
+                .fill_buffer(&mut transposed_frame_data[decoded..])
+                .map_err(|_| VtxError::DecompressFailure)?;
+        }
 
         // VTX originally stores pre-transposed data, therefore we need to tarnspose it
         let frames_count = transposed_frame_data.len() / AY_REGISTER_COUNT;
